@@ -21,7 +21,7 @@ import (
 func init() {
 	h.Register(&h.Prop{
 		ID:   "C05",
-		Rule: "adv: n in 3..5, one Byzantine member; fault catalogue (bad share, equivocating commitments with and without cross-wired session ids, T in {0,1,n+1,2^32-1} bound/unbound, self-consistent deals of threshold 0,1,2,n+1,2n (exactly T commitments, fitting share and session id), wrong index (small, out of range, equal to the own index modulo 2^32), other-length commitments, missing share/value, raw session id, junk / missing / redirected / previous-session deal, slot pre-emption under an honest or out-of-range index; forged PublicKey messages (another member's / the own / an out-of-range index, outsider as sender, the adversary's own key twice), three Byzantine seats sharing one key with re-labelled approvals; response with bad / missing / foreign signature, foreign or previous session id, complaint about an honest dealer or about the recipient's own deal, relabelled or previous-session genuine response, missing response, out-of-range responder) injected at every position of the honest delivery sequence (all in thorough and for n=3,4 in quick; sampled for n=5 in quick), pairs of faults in thorough (n = 3: every pair sampled 1/8 per seed, n = 4, 5: 500 / 300 random pairs); non-trivial = every case (each has at least one adversarial message); distinct = distinct case line",
+		Rule: "adv: n in 3..5, one Byzantine member; fault catalogue (bad share, equivocating commitments with and without cross-wired session ids, T in {0,1,n+1,2^32-1} bound/unbound, self-consistent deals of threshold 0,1,2,n+1,2n (exactly T commitments, fitting share and session id), wrong index (small, out of range, equal to the own index modulo 2^32), other-length commitments, missing share/value, raw session id, junk / missing / redirected / previous-session deal, slot pre-emption under an honest or out-of-range index; forged PublicKey messages (another member's / the own / an out-of-range index, outsider as sender, the adversary's own key twice, SenderId field pre-filled with the claimed member's / the victim's / the forger's id or garbage; before the starts, after the starts, immediately before the genuine key), three Byzantine seats sharing one key with re-labelled approvals; response with bad / missing / foreign signature, foreign or previous session id, complaint about an honest dealer or about the recipient's own deal, relabelled or previous-session genuine response, missing response, out-of-range responder) injected at every position of the honest delivery sequence (all in thorough and for n=3,4 in quick; sampled for n=5 in quick), pairs of faults in thorough (n = 3: every pair sampled 1/8 per seed, n = 4, 5: 500 / 300 random pairs); non-trivial = every case (each has at least one adversarial message); distinct = distinct case line",
 		Gen:  gen,
 		Exec: exec,
 	})
@@ -292,9 +292,13 @@ func instances(n, b int) []injection {
 	return all
 }
 
-// forgedKeys: the Byzantine member b announces, to every honest member, a key of its own under the index
-// of another honest member, before that member's key arrives (n = 3: the split this allowed on the pinned
-// tree is in corpus/C05); variants with the victim's own index, an out-of-range index, an outsider as sender.
+// forgedKeys: the Byzantine member b announces, to every honest member i, a key of its own under the index
+// of another honest member j, before that member's key arrives (n = 3: the split this allowed on the pinned
+// tree is in corpus/C05); variants with the victim's own index, an out-of-range index, an outsider as sender,
+// and with the SenderId field of the message – an ordinary protobuf field that Loop must overwrite with the
+// transport-authenticated sender – pre-filled with the id of j (what exchangePub wants to see), of the victim,
+// of the forger, with garbage. Positions: before anybody has started, after the starts, immediately before
+// the genuine key.
 func forgedKeys(seed func() uint64, n, b int, emit func(string)) {
 	ev := canonical(n)
 	var hon []int
@@ -303,35 +307,51 @@ func forgedKeys(seed func() uint64, n, b int, emit func(string)) {
 			hon = append(hon, k)
 		}
 	}
-	for _, variant := range []string{"other", "own", "oob", "outsider", "bkey"} {
-		var defs, out []string
-		id := 0
-		for _, e := range ev {
-			if e[0] == 'p' {
-				p := strings.Split(e[1:], ".")
-				j, i := h.Atoi(p[0]), h.Atoi(p[1])
-				if i != b && j != b && j == hon[(indexOf(hon, i)+1)%len(hon)] {
-					spec := ""
-					switch variant {
-					case "other":
-						spec = fmt.Sprintf("K.%d.%d.x%d", j, b, i)
-					case "own":
-						spec = fmt.Sprintf("K.%d.%d.x%d", i, b, i)
-					case "oob":
-						spec = fmt.Sprintf("K.%d.%d.x%d", n+1, b, i)
-					case "outsider":
-						spec = fmt.Sprintf("K.%d.%d.x%d", j, n+5, i)
-					case "bkey":
-						spec = fmt.Sprintf("K.%d.%d.%d", j, b, b)
+	variants := []struct {
+		name string
+		spec func(j, i int) string
+	}{
+		{"other", func(j, i int) string { return fmt.Sprintf("K.%d.%d.x%d", j, b, i) }},
+		{"own", func(j, i int) string { return fmt.Sprintf("K.%d.%d.x%d", i, b, i) }},
+		{"oob", func(j, i int) string { return fmt.Sprintf("K.%d.%d.x%d", n+1, b, i) }},
+		{"outsider", func(j, i int) string { return fmt.Sprintf("K.%d.%d.x%d", j, n+5, i) }},
+		{"bkey", func(j, i int) string { return fmt.Sprintf("K.%d.%d.%d", j, b, b) }},
+		{"pre-claimed", func(j, i int) string { return fmt.Sprintf("K.%d.%d.x%d.%d", j, b, i, j) }},
+		{"pre-victim", func(j, i int) string { return fmt.Sprintf("K.%d.%d.x%d.%d", j, b, i, i) }},
+		{"pre-forger", func(j, i int) string { return fmt.Sprintf("K.%d.%d.x%d.%d", j, b, i, b) }},
+		{"pre-garbage", func(j, i int) string { return fmt.Sprintf("K.%d.%d.x%d.g", j, b, i) }},
+		{"pre-claimed-outsider", func(j, i int) string { return fmt.Sprintf("K.%d.%d.x%d.%d", j, n+5, i, j) }},
+		{"pre-claimed-bkey", func(j, i int) string { return fmt.Sprintf("K.%d.%d.%d.%d", j, b, b, j) }},
+	}
+	for _, v := range variants {
+		for _, pos := range []string{"first", "started", "before"} {
+			var defs, early, out []string
+			id := 0
+			for _, e := range ev {
+				if e[0] == 'p' {
+					p := strings.Split(e[1:], ".")
+					j, i := h.Atoi(p[0]), h.Atoi(p[1])
+					if i != b && j != b && j == hon[(indexOf(hon, i)+1)%len(hon)] {
+						defs = append(defs, fmt.Sprintf("X%d=%s", id, v.spec(j, i)))
+						x := fmt.Sprintf("x%d.%d", id, i)
+						if pos == "before" {
+							out = append(out, x)
+						} else {
+							early = append(early, x)
+						}
+						id++
 					}
-					defs = append(defs, fmt.Sprintf("X%d=%s", id, spec))
-					out = append(out, fmt.Sprintf("x%d.%d", id, i))
-					id++
 				}
+				out = append(out, e)
 			}
-			out = append(out, e)
+			switch pos {
+			case "first":
+				out = append(early, out...)
+			case "started":
+				out = append(append(append([]string{}, out[:n]...), early...), out[n:]...)
+			}
+			emit(fmt.Sprintf("adv %d %d %s %s %d", seed(), n, strings.Join(defs, ";"), strings.Join(out, ","), b))
 		}
-		emit(fmt.Sprintf("adv %d %d %s %s %d", seed(), n, strings.Join(defs, ";"), strings.Join(out, ","), b))
 	}
 }
 
